@@ -380,6 +380,36 @@ Proof.
     destruct q; reflexivity.
 Qed.
 
+(** the side facts behind the presence tests of multi_solve: the dense solver on an absent
+    (zero) diagonal block is the identity, on an absent (zero) right-hand side it gives zero,
+    and products with an absent block vanish *)
+Lemma solve_model_zero_matrix n b i : i < n ->
+  get1 o (solve_model o n (zeros2 o n n) b) i = get1 o b i.
+Proof.
+  intros Hi. rewrite solve_model_gjf by exact Hi. apply (gjf_zero_cols o Hring).
+  intros k _ i'. apply get2_zeros2_any.
+Qed.
+Lemma solve_model_zero_rhs n A i : i < n ->
+  get1 o (solve_model o n A (zeros1 o n)) i = zero o.
+Proof.
+  intros Hi. rewrite solve_model_gjf by exact Hi. apply (gjf_zero_rhs o Hring).
+  intros i'. unfold get1, zeros1, tab1. destruct (Nat.ltb_spec i' n) as [H|H].
+  - rewrite (nth_map_seq (fun _ => zero o) 0 n i' (zero o)) by exact H. reflexivity.
+  - apply nth_overflow. rewrite map_length, seq_length. exact H.
+Qed.
+Lemma mm_model_zero_l p q r B i k : i < p -> k < r ->
+  get2 o (mm_model o p q r (zeros2 o p q) B) i k = zero o.
+Proof.
+  intros Hi Hk. unfold mm_model. rewrite get2_tab2 by assumption.
+  apply (sum_n_zero o Hring). intros j _. rewrite get2_zeros2_any. ring.
+Qed.
+Lemma mm_model_zero_r p q r A i k : i < p -> k < r ->
+  get2 o (mm_model o p q r A (zeros2 o q r)) i k = zero o.
+Proof.
+  intros Hi Hk. unfold mm_model. rewrite get2_tab2 by assumption.
+  apply (sum_n_zero o Hring). intros j _. rewrite get2_zeros2_any. ring.
+Qed.
+
 (** no block at all in [a] ([_order_nonterminals] returns [] then): the result is [b] *)
 Theorem multi_solve_empty tr b :
   NoDup (map fst b) ->
